@@ -238,6 +238,9 @@ def main(argv=None):
     if status == 0 and (n_undec or not res["complete"]):
         status = 2
         msgs.append("inconclusive: %d undecided, exploration complete=%s" % (n_undec, res["complete"]))
+        for p in paths:
+            if p.get("notes") and (p["undecided"] or (p["aborted"] or "").startswith("undecided")):
+                msgs.append("  undecided on %s [%s]: %s" % (p["cfg"], p["decisions"][:40], p["notes"][:2]))
 
     # ------------------------------------------------------------------ evidence
     wall = time.time() - t0
